@@ -1,6 +1,6 @@
 (* Periodic concatenation (C04): numeric.calculate_control_matrix_periodic and the pieces of
    pulse_sequence.concatenate_periodic that feed it.  Polymorphic in Ops like Model/Numeric.v.
-   External routines: numpy.linalg.det / isclose (the per-frequency invertibility flag) and
+   External routines: numpy.linalg.cond (the per-frequency flag cond(1 - T) < 1e8 since /repo 752331b) and
    numpy.linalg.solve are oracle inputs ([inv], [Ss]); the result of solve is validated by its
    residual (1 - T) S - (1 - T^G) ([solve_residual]) in the correspondence check.           *)
 From Coq Require Import ZArith List.
